@@ -96,19 +96,41 @@ def deployment(dep):
 
 
 class RepSpec(netx.Spec):
-    def __init__(self, dep, phase):
-        self.dep, self.phase = dep, phase
+    def __init__(self, dep, phase, leave=False):
+        self.dep, self.phase, self.leave = dep, phase, leave
 
     def canon_extra(self, world):
-        return (sorted(world.mon.get("done", {}).items()), sorted(world.mon["replicate"]), tuple(world.mon.get("bad", ())))
+        return (sorted(world.mon.get("done", {}).items()), sorted(world.mon["replicate"]), tuple(world.mon.get("bad", ())), tuple(world.mon.get("left", ())))
 
     def extra_events(self, world):
         if self.phase != "run" or world.exception is not None:
             return []
-        return [("replicate", a) for a in sorted(self.dep["agents"]) if a not in world.mon["replicate"]]
+        left = world.mon.get("left", [])
+        evs = [("replicate", a) for a in sorted(self.dep["agents"]) if a not in world.mon["replicate"] and a not in left]
+        if self.leave and not left and world.mon["replicate"]:
+            # one agent leaves at any moment once a replication has been requested
+            evs += [("leave", a) for a in sorted(self.dep["agents"]) if self.leave in (True, a)]
+        return evs
 
     def apply_extra(self, world, event):
         a = event[1]
+        if event[0] == "leave":
+            # what ResilientAgent._on_stop / Agent._on_stop do; afterwards nothing is delivered to the agent any more
+            rep = world.comps["_replication_" + a]
+            d = rep.discovery
+            world.mon["left"] = [a]
+            rep.stop()
+            d.unregister_computation(rep.name)
+            for c in self.dep["agents"][a]["comps"]:
+                d.unregister_computation(c, a)
+            d.unregister_agent(a)
+            gone = ("_replication_" + a, "_discovery_" + a)
+            for key in [k for k in world.chans if k[1] in gone]:
+                del world.chans[key]
+            for n in gone:
+                world.front.pop(n, None)
+                del world.comps[n]
+            return
         world.mon["replicate"].append(a)
         world.comps["_replication_" + a].replicate(self.dep["k"])
 
@@ -122,6 +144,8 @@ class RepSpec(netx.Spec):
         dep, k = self.dep, self.dep["k"]
         # capacity rule: evaluated on every state from the agents' real tables (not from the memo)
         for a, ad in dep["agents"].items():
+            if a in world.mon.get("left", ()):
+                continue
             rep = world.comps["_replication_" + a]
             hosted = dict(rep._hosted_replicas)  # comp -> (owner, footprint)
             remaining = ad["capacity"] - sum(ad["comps"].values())
@@ -146,12 +170,37 @@ class RepSpec(netx.Spec):
             return
         dep, k = self.dep, self.dep["k"]
         done = world.mon.get("done", {})
-        notdone = [a for a in dep["agents"] if a not in done]
+        left = world.mon.get("left", [])
+        notdone = [a for a in dep["agents"] if a not in done and a not in left]
         if notdone:
             pending = {f"{s}->{d}": len(q) for (s, d), q in world.chans.items()}
-            report("C25|replication-never-done", f"deployment {dep['name']}: quiescent but {notdone} never reported replication done; pending {pending}")
+            tag = "|after-an-agent-left" if left else ""
+            report("C25|replication-never-done" + tag, f"deployment {dep['name']}: quiescent but {notdone} never reported replication done (left: {left}); pending {pending}")
             return
         dd = world.comps["_discovery_orchestrator"].discovery
+        if left:
+            # fault runs: judged on the survivors' final tables (a done report may predate the departure)
+            for a, ad in dep["agents"].items():
+                if a in left:
+                    continue
+                rep = world.comps["_replication_" + a]
+                for c in ad["comps"]:
+                    hosts = sorted(rep._replica_hosts.get(c, ()))
+                    if a in hosts or len(hosts) > k or any(h not in dep["agents"] or h in left for h in hosts):
+                        report("C25|bad-replica-hosts|after-an-agent-left", f"deployment {dep['name']}: {left} left; replicas of {c} (owner {a}, k={k}) finally on {hosts}")
+                        return
+                    try:
+                        known = set(dd.replica_agents(c))
+                    except Exception:  # noqa
+                        known = set(dd._replicas_data.get(c, ()))
+                    if not set(hosts) <= known:
+                        report("C25|replica-not-recorded-in-discovery|after-an-agent-left", f"deployment {dep['name']}: {left} left; replicas of {c} finally on {hosts} but the directory records {sorted(known)}")
+                        return
+                    holders = sorted(b for b in dep["agents"] if b not in left and c in world.comps["_replication_" + b]._hosted_replicas)
+                    if not set(hosts) <= set(holders):
+                        report("C25|reported-host-holds-no-replica|after-an-agent-left", f"deployment {dep['name']}: {left} left; replicas of {c} finally on {hosts} but held by {holders}")
+                        return
+            return
         for a, ad in dep["agents"].items():
             for c in ad["comps"]:
                 hosts = done[a].get(c, [])
@@ -235,11 +284,14 @@ def setup(dep):
 
 def explore(dep, schedule, part):
     world, shared = setup(dep)
-    sp = RepSpec(dep, "run")
+    leave = False
+    if schedule.startswith("leave:"):
+        _, leave, schedule = schedule.split(":", 2)
+    sp = RepSpec(dep, "run", leave=leave)
     ex = netx.Explorer(sp, shared=shared, schedule=schedule, max_states=300000)
 
     def report(key, what, w, hist):
-        part.violation(key, what, {"dep": dep, "schedule": schedule, "history": netx.unroll(hist)})
+        part.violation(key, what, {"dep": dep, "schedule": schedule, "leave": leave, "history": netx.unroll(hist)})
 
     st = ex.run(world, report)
     for k in ("states", "transitions", "traces", "revisits"):
@@ -249,13 +301,16 @@ def explore(dep, schedule, part):
     part.count("evaluations")
     if ex.capped:
         part.count("capped")
-    part.outcome((dep["name"], schedule, tuple(sorted(ex.end_digests))[:8]))
-    part.nontriv((dep["name"], schedule))
+    part.outcome((dep["name"], schedule, leave, tuple(sorted(ex.end_digests))[:8]))
+    part.nontriv((dep["name"], schedule, leave))
+    if leave:
+        part.count("runs_with_a_departure")
     if st["states"] > 50:
         part.sample({"deployment": dep, "schedule": schedule, "states": st["states"], "traces": st["traces"]}, cap=1)
 
 
 SCHEDULES = ("first", "last", "alt", "alt2", "alt3", "alt4")
+LEAVE_DEPS_QUICK = ("line3-ample-k1",)
 
 
 def shard(items):
@@ -274,6 +329,8 @@ def run(ctx):
         small = len(d["agents"]) == 3 and (all(len(a["comps"]) == 1 for a in d["agents"].values()) or not ctx.quick)
         if small:
             jobs.append((d, "all"))
+            if d["name"] in LEAVE_DEPS_QUICK or (not ctx.quick and all(len(a["comps"]) == 1 for a in d["agents"].values())):
+                jobs.extend((d, f"leave:{a}:all") for a in sorted(d["agents"]))
         else:
             for s in SCHEDULES:
                 jobs.append((d, s))
@@ -294,8 +351,16 @@ def run(ctx):
     # keep the runs of one deployment family in the same worker, both orders of the pair (ample first / tight first)
     n = 16
     buckets = [[] for _ in range(n)]
-    for i, j in enumerate(sorted(jobs, key=lambda j: (j[0]["name"], j[1]))):
-        buckets[i % n].append(j)
+    def weight(j):
+        # measured: the exhaustive runs of the ample k=2 deployments and the departure runs dominate (30-45 s each)
+        heavy = j[1].startswith("leave:") or (j[1] == "all" and "ample-k2" in j[0]["name"]) or (j[1] == "all" and not ctx.quick)
+        return 30 if heavy else 1
+
+    load = [0] * n
+    for j in sorted(jobs, key=lambda j: (-weight(j), j[0]["name"], j[1])):
+        i = load.index(min(load))
+        buckets[i].append(j)
+        load[i] += weight(j)
     for b in buckets[::2]:
         b.reverse()
     ctx.pmap(shard, [b for b in buckets if b])
@@ -307,7 +372,7 @@ def run(ctx):
 def replay(case):
     dep = case["dep"]
     world, shared = setup(dep)
-    sp = RepSpec(dep, "run")
+    sp = RepSpec(dep, "run", leave=case.get("leave", False))
     found = []
 
     def observe(w, ev):
@@ -315,7 +380,7 @@ def replay(case):
 
     w = netx.replay(world, sp, case["history"], observe)
     print("done:", w.mon.get("done"))
-    print({a: dict(w.comps["_replication_" + a]._hosted_replicas) for a in dep["agents"]})
+    print({a: dict(w.comps["_replication_" + a]._hosted_replicas) for a in dep["agents"] if "_replication_" + a in w.comps})
     if not netx.enabled_events(w, sp):
         sp.check_end(w, lambda k, what: found.append((k, what)))
     for k, what in found:
